@@ -237,7 +237,7 @@ class DBStorage(BaseStorage):
             )
             result = await conn.execute(query)
 
-            delete_id = None
+            delete_ids = []
             if event.is_paramaterized_replaceable:
                 # according to nip-33, an event with a matching "d" tag will be replaced
                 # empty tags include [], [["d"]], and [["d", ""]]
@@ -255,22 +255,16 @@ class DBStorage(BaseStorage):
                             or len(found_tag[0]) == 1
                             or found_tag[0][1] == ""
                         ):
-                            delete_id = old_id
-                            old_ts = created_at
-                            break
+                            delete_ids.append((old_id, created_at))
                     elif found_tag:
                         tag = found_tag[0]
                         if len(tag) > 1 and tag[1] == d_tag:
-                            delete_id = old_id
-                            old_ts = created_at
-                            break
+                            delete_ids.append((old_id, created_at))
 
             else:
-                row = result.first()
-                if row:
-                    delete_id = row[0]
-                    old_ts = row[1]
-            if delete_id:
+                delete_ids = [(row[0], row[1]) for row in result]
+            # every older version goes, not just the first one the database happens to return
+            for delete_id, old_ts in delete_ids:
                 self.log.info(
                     "Replacing event %s from %s@%s with %s",
                     delete_id,
